@@ -39,6 +39,11 @@ CLAIMED["C20"] = dict(
    note="Trusted: Coq kernel; goextract (maxRetries constant); extraction + OCaml driver; the harness' fake redigo.Conn. The regular expressions ^role:master / ^role:slave are modelled as prefix tests on the lines of strings.Split(reply, \"\\n\"). Quick tier uses retry budgets 0..2 (sleeps 2+1 s), thorough up to 6 (21 s).",
    technique="Coq proof (induction over the node list and the retry depth, probe as oracle) + differential run with injected factory",
    design="DESIGN.md section 5, C20")
+CLAIMED["C14"] = dict(
+   text="Theorems in coq/Props/C14.v (closed, no axioms) over a Gallina model of LoadCheckpoint/fetchCheckpoint/ClearCheckpoint: the loader's result is the version gate and the '?' rule around a scan that returns the greatest offset recorded for its own source together with the run id, database and version stored next to it (offset -1 when none); the scan result is invariant under every permutation of the database list (Go map order) when the source's offsets are pairwise distinct; fields of other sources - including addresses that extend ours - do not influence the result; stale runid/offset fields of the source are removed in every database except the one resumed from and nothing else is touched; whatever the sender stores (HSET of runid, version, offset on a hash with unique fields) is read back unchanged. Differential run: target states built from random sender-style writes of 1..3 sources (prefix addresses), partial/cleared checkpoints, version variants, loaded 3x by the real LoadCheckpoint over TCP from fakeredis; result and post-state vs the extracted model plus an independent oracle.",
+   note="Trusted: Coq kernel; extraction + OCaml driver; fakeredis (INFO keyspace/SELECT/EXISTS/HGETALL/HDEL) and redigo. 'Pairwise distinct own offsets' is the visible hypothesis of the order-independence theorem (an invariant of the sender: offsets of successive groups strictly increase, C04). utils.ParseKeyspace is exercised by the run but not modelled beyond 'databases with keys are listed'.",
+   technique="Coq proof (argmax scan, permutation invariance, assoc-list lemmas) + differential run over TCP against fakeredis",
+   design="DESIGN.md section 5, C14")
 NOT_YET = {}
 props = [json.loads(l) for l in open(os.path.join(V, "properties.jsonl"))]
 hooks = subprocess.run(["git", "-C", "/repo", "log", "--format=%H %s"], capture_output=True, text=True).stdout.strip().split("\n")
